@@ -420,7 +420,7 @@ def main(run):
         run.extra["tsan"] = run_tsan(run, root, cwd, calls, by_id, compare, check_events)
     cli_histories(run, root)
     shutil.rmtree(root, ignore_errors=True)
-    return run.finish(floor=FLOOR if run.tier == "quick" else {k: (v * 20 if k not in ("distinct-lock-orders", "miri-runs", "tsan-runs", "cli-history-steps") else (v * 4 if k != "cli-history-steps" else v)) for k, v in FLOOR.items()})
+    return run.finish(floor=FLOOR if run.tier == "quick" else {k: (v * 20 if k not in ("distinct-lock-orders", "miri-runs", "tsan-runs", "cli-history-steps", "many-files-calls") else (v * 4 if k != "cli-history-steps" else v)) for k, v in FLOOR.items()})
 
 
 MIRI_SCHEMA_A = "type Query { a: Int b: B }\ntype B { c: String }\n"
